@@ -434,10 +434,32 @@ def skipSp (s : List Char) : List Char := (takeWhileC (· == ' ') s).2
 
 def digitsVal (ds : List Char) : Nat := ds.foldl (fun a c => a * 10 + (c.toNat - '0'.toNat)) 0
 
+def kwConst : List Char := ['c', 'o', 'n', 's', 't']
+def kwVoid : List Char := ['v', 'o', 'i', 'd']
+def kwStruct : List Char := ['s', 't', 'r', 'u', 'c', 't']
+def kwUnion : List Char := ['u', 'n', 'i', 'o', 'n']
+def kwEnum : List Char := ['e', 'n', 'u', 'm']
+
 /-- words that make up builtin type specifiers -/
 def specWords : List (List Char) :=
-  ["void", "char", "short", "int", "long", "float", "double", "signed", "unsigned", "bool", "_Bool",
-   "wchar_t", "complex", "_Complex", "_Float16", "__float128", "__complex128", "nullptr_t"].map String.toList
+  [['v', 'o', 'i', 'd'],
+   ['c', 'h', 'a', 'r'],
+   ['s', 'h', 'o', 'r', 't'],
+   ['i', 'n', 't'],
+   ['l', 'o', 'n', 'g'],
+   ['f', 'l', 'o', 'a', 't'],
+   ['d', 'o', 'u', 'b', 'l', 'e'],
+   ['s', 'i', 'g', 'n', 'e', 'd'],
+   ['u', 'n', 's', 'i', 'g', 'n', 'e', 'd'],
+   ['b', 'o', 'o', 'l'],
+   ['_', 'B', 'o', 'o', 'l'],
+   ['w', 'c', 'h', 'a', 'r', '_', 't'],
+   ['c', 'o', 'm', 'p', 'l', 'e', 'x'],
+   ['_', 'C', 'o', 'm', 'p', 'l', 'e', 'x'],
+   ['_', 'F', 'l', 'o', 'a', 't', '1', '6'],
+   ['_', '_', 'f', 'l', 'o', 'a', 't', '1', '2', '8'],
+   ['_', '_', 'c', 'o', 'm', 'p', 'l', 'e', 'x', '1', '2', '8'],
+   ['n', 'u', 'l', 'l', 'p', 't', 'r', '_', 't']]
 
 def builtinBases : List Base :=
   [.void, .nullptr] ++ allIntK.map .int ++ allFloatK.map .float ++ allFloatK.map .complex
@@ -463,10 +485,10 @@ def lexGo (tds : List Name) : Nat → List Char → List Tok
     | '*' :: r =>
       let r' := skipSp r
       let (w, r'') := takeWhileC isIdChar r'
-      if w == "const".toList then .star true :: lexGo tds f r'' else .star false :: lexGo tds f r
+      if w == kwConst then .star true :: lexGo tds f r'' else .star false :: lexGo tds f r
     | '(' :: r =>
       let (w, r') := takeWhileC isIdChar (skipSp r)
-      match w == "void".toList, skipSp r' with
+      match w == kwVoid, skipSp r' with
       | true, ')' :: r'' => .voidp :: lexGo tds f r''
       | _, _ => .lpar :: lexGo tds f r
     | ')' :: r => .rpar :: lexGo tds f r
@@ -479,10 +501,10 @@ def lexGo (tds : List Name) : Nat → List Char → List Tok
     | c :: r =>
       if isIdStart c then
         let (w, r') := takeWhileC isIdChar (c :: r)
-        if w == "const".toList then .kconst :: lexGo tds f r'
-        else if w == "struct".toList || w == "union".toList || w == "enum".toList then
+        if w == kwConst then .kconst :: lexGo tds f r'
+        else if w == kwStruct || w == kwUnion || w == kwEnum then
           let (n, r'') := takeWhileC isIdChar (skipSp r')
-          let b := if w == "struct".toList then Base.struct n else if w == "union".toList then .union n else .enum n
+          let b := if w == kwStruct then Base.struct n else if w == kwUnion then .union n else .enum n
           (if n.isEmpty then .junk else .ty b) :: lexGo tds f r''
         else if specWords.contains w then
           let (txt, r'') := moreSpecWords f w r'
